@@ -10,6 +10,7 @@ TARGETS = ['engine.get_value', 'engine.Atom.get_value', 'engine.Variable.get_val
 
 def run(rep):
     enginep.engine_deductive(rep, TARGETS)
+    enginep.topython_deductive(rep)
     q = rep.tier == 'quick'
     fw.standin(rep, 'real_terms.py', ['search', 3 if q else 4, 6000 if q else 150000, rep.seed],
                'refutation search: real get_value/unify under binding histories vs the spec mirror (resolve)',
@@ -21,4 +22,4 @@ def run(rep):
     rep.notes.append('get_value(t) == resolve(t, store): the fully dereferenced term, for every store (any binding order); resolve '
                      'replaces every bound variable at every depth, so a ground answer contains no variable and its meaning no longer '
                      'depends on the store; Variable.unify stores resolve(term) at binding time; findall and assert_fact export fresh '
-                     'copies of resolved terms. to_python is covered by the bounded stand-in only (not yet under contract)')
+                     'copies of resolved terms. to_python (module function and the three methods) is verified to return topy(resolve(t)): the C16 mapping of the fully dereferenced term, on terms whose lists are proper')
